@@ -116,6 +116,7 @@ namespace sim
     EV_SWAP,      // user-provided ADL swap of the element type
     EV_COMPARE,   // operator== / operator< of the element type
     EV_PRED,      // caller's predicate (erase_if)
+    EV_ALLOC_CONSTRUCT, // the allocator's own construct() member (may throw although T's constructor cannot)
     EV_NKINDS
   };
 
@@ -124,7 +125,8 @@ namespace sim
   {
     static const char *const names[] = { "alloc", "ctor_default", "ctor_value", "ctor_copy",
                                          "ctor_move", "assign_copy", "assign_move",
-                                         "iter_deref", "iter_inc", "gen_call", "swap", "compare", "pred" };
+                                         "iter_deref", "iter_inc", "gen_call", "swap", "compare", "pred",
+                                         "alloc_construct" };
     return (0 <= k && k < EV_NKINDS) ? names[k] : "?";
   }
 
@@ -132,7 +134,7 @@ namespace sim
   static const std::uint32_t MASK_CTORS = (1u << EV_CTOR_DEFAULT) | (1u << EV_CTOR_VALUE)
                                           | (1u << EV_CTOR_COPY) | (1u << EV_CTOR_MOVE);
   // the kinds C05 talks about: "an element constructor or the allocator"
-  static const std::uint32_t MASK_C05 = MASK_CTORS | (1u << EV_ALLOC);
+  static const std::uint32_t MASK_C05 = MASK_CTORS | (1u << EV_ALLOC) | (1u << EV_ALLOC_CONSTRUCT);
 
   struct fault_plan
   {
@@ -197,10 +199,13 @@ namespace sim
     std::int32_t  j;
     int           fired;
     int           fired_kind[2];
+    bool          construct_is_move;       // set by the allocator's construct() before its event
+    bool          fired_construct_move;    // the first fired alloc_construct fault was a move construction
     std::uint64_t ev_count[EV_NKINDS]; // all events seen while in_op
     std::uint64_t eligible1;           // events matching `mask` seen before the first throw
     std::uint64_t eligible2;           // events matching `mask2` seen after the first throw
     std::uint64_t throwing_events;     // events of operations that are allowed to throw
+    std::uint64_t construct_in_noexcept; // allocator construct() calls inside a call declared noexcept
     bool          had_plan;            // the op in flight carries a fault plan
     std::uint64_t eligible1_last;      // eligible1 / eligible2 of the last op that had a plan
     std::uint64_t eligible2_last;
@@ -239,11 +244,12 @@ namespace sim
 
     state (void)
       : in_op (false), armed (false), mask (0), countdown (-1), mask2 (0), j (-1), fired (0),
-        eligible1 (0), eligible2 (0), throwing_events (0), had_plan (false), eligible1_last (0), eligible2_last (0), count_mask2 (0), unwinding (false), elog_overflow (false),
+        eligible1 (0), eligible2 (0), throwing_events (0), construct_in_noexcept (0), had_plan (false), eligible1_last (0), eligible2_last (0), count_mask2 (0), unwinding (false), elog_overflow (false),
         deallocs (0), violated (false), v_props (0), ctx_props (0), universe_props (0), cur_op_name (""),
         cur_op_index (-1), cur_noexcept_declared (false)
     {
       fired_kind[0] = fired_kind[1] = -1;
+      construct_is_move = fired_construct_move = false;
       for (int i = 0; i < EV_NKINDS; ++i)
         ev_count[i] = tot_armed[i] = tot_fired[i] = tot_events[i] = 0;
       for (int k = 0; k < 64; ++k)
@@ -318,6 +324,8 @@ namespace sim
   {
     state& g = G ();
     g.fired_kind[g.fired < 2 ? g.fired : 1] = kind;
+    if (g.fired == 0)
+      g.fired_construct_move = kind == EV_ALLOC_CONSTRUCT && g.construct_is_move;
     ++g.fired;
     ++g.tot_fired[kind];
     g.unwinding = true;
@@ -343,6 +351,13 @@ namespace sim
     if (! g.in_op)
       return;
     ++g.ev_count[kind];
+    if (kind == EV_ALLOC_CONSTRUCT && g.cur_noexcept_declared)
+    {
+      // recorded, judged after the call (oracle noexcept.alloc_construct), never thrown: throwing
+      // here would only turn the report into a std::terminate of the worker
+      ++g.construct_in_noexcept;
+      return;
+    }
     ++g.throwing_events;
     if (g.fired == 0)
     {
@@ -386,13 +401,17 @@ namespace sim
   }
 
   inline void
-  begin_op (const fault_plan& f, std::uint32_t count_mask1, std::uint32_t count_mask2)
+  begin_op (const fault_plan& f, std::uint32_t count_mask1, std::uint32_t count_mask2,
+            bool noexcept_declared = false)
   {
     state& g = G ();
+    g.cur_noexcept_declared = noexcept_declared;
+    g.construct_in_noexcept = 0;
     for (int i = 0; i < EV_NKINDS; ++i)
       g.ev_count[i] = 0;
     g.fired         = 0;
     g.fired_kind[0] = g.fired_kind[1] = -1;
+    g.construct_is_move = g.fired_construct_move = false;
     g.eligible1 = g.eligible2 = 0;
     g.throwing_events = 0;
     g.unwinding     = false;
